@@ -96,25 +96,25 @@ Proof. induction pre; cbn; auto. Qed.
 Lemma set_nth_mid {A} (pre : list A) x y r : set_nth (pre ++ x :: r) (length pre) y = pre ++ y :: r.
 Proof. induction pre as [|a pre IH]; cbn; [reflexivity|]. now rewrite IH. Qed.
 
-Lemma resolve_loop_from reg root ls l : forall pre,
-  fold_left (resolve_step reg) (live_from l (length pre)) {| h_nodes := pre ++ l; h_root := root; h_links := ls |} =
-  {| h_nodes := pre ++ map (option_map (map_node (resolve_hop reg))) l; h_root := root; h_links := ls |}.
+Lemma resolve_loop_from reg keep root ls l : forall pre,
+  fold_left (resolve_step reg keep) (live_from l (length pre)) {| h_nodes := pre ++ l; h_root := root; h_links := ls |} =
+  {| h_nodes := pre ++ map (option_map (map_node (resolve_hop reg keep))) l; h_root := root; h_links := ls |}.
 Proof.
   induction l as [|[n|] l IH]; intros pre; cbn [live_from map fold_left option_map].
   - reflexivity.
-  - assert (E : resolve_step reg {| h_nodes := pre ++ Some n :: l; h_root := root; h_links := ls |} (length pre) =
-                {| h_nodes := (pre ++ [Some (map_node (resolve_hop reg) n)]) ++ l; h_root := root; h_links := ls |}).
+  - assert (E : resolve_step reg keep {| h_nodes := pre ++ Some n :: l; h_root := root; h_links := ls |} (length pre) =
+                {| h_nodes := (pre ++ [Some (map_node (resolve_hop reg keep) n)]) ++ l; h_root := root; h_links := ls |}).
     { unfold resolve_step, set_op, get_node. cbn [h_nodes h_root h_links]. rewrite nth_error_mid, set_nth_mid.
       rewrite <- app_assoc. reflexivity. }
-    rewrite E. replace (S (length pre)) with (length (pre ++ [Some (map_node (resolve_hop reg) n)]))
+    rewrite E. replace (S (length pre)) with (length (pre ++ [Some (map_node (resolve_hop reg keep) n)]))
       by (rewrite app_length; cbn; lia).
     rewrite IH. now rewrite <- app_assoc.
   - replace (pre ++ None :: l) with ((pre ++ [None]) ++ l) by now rewrite <- app_assoc.
     replace (S (length pre)) with (length (pre ++ [@None nodeT])) by (rewrite app_length; cbn; lia).
     rewrite IH. now rewrite <- app_assoc.
 Qed.
-Lemma resolve_extensions_map reg h : resolve_extensions reg h = map_hugr (resolve_hop reg) h.
-Proof. destruct h as [ns r ls]. exact (resolve_loop_from reg r ls ns []). Qed.
+Lemma resolve_extensions_map reg keep h : resolve_extensions reg keep h = map_hugr (resolve_hop reg keep) h.
+Proof. destruct h as [ns r ls]. exact (resolve_loop_from reg keep r ls ns []). Qed.
 
 (* ------------------------------------------------------------------ (a) the frame, and exactly the resolvable operations replaced *)
 Lemma slots_map_rel (R : hop -> hop -> Prop) (f : hop -> hop) ns :
@@ -125,31 +125,31 @@ Proof.
   destruct x as [n|]; cbn; constructor. split; [repeat split|exact Hx].
 Qed.
 
-Lemma resolve_frame reg h : same_frame h (resolve_extensions reg h).
+Lemma resolve_frame reg keep h : same_frame h (resolve_extensions reg keep h).
 Proof.
   rewrite resolve_extensions_map. repeat split. cbn.
   induction (h_nodes h) as [|[n|] l IH]; cbn; constructor; auto; constructor. repeat split.
 Qed.
 
-Lemma resolve_hop_rel reg o : RegWF reg -> RHop reg o (resolve_hop reg o).
+Lemma resolve_hop_rel reg keep o : RegWF reg -> RHop reg o (resolve_hop reg keep o).
 Proof.
   intros Hwf. destruct o as [o|k a b l|v]; cbn [resolve_hop]; constructor. now apply resolve_op_pointwise.
 Qed.
-Lemma resolve_hugr_rel reg h : RegWF reg -> RHugr reg h (resolve_extensions reg h).
+Lemma resolve_hugr_rel reg keep h : RegWF reg -> RHugr reg h (resolve_extensions reg keep h).
 Proof.
   intros Hwf. rewrite resolve_extensions_map. repeat split. cbn. apply slots_map_rel.
   apply Forall_forall. intros [n|] _; cbn; [|trivial]. now apply resolve_hop_rel.
 Qed.
 
 (* only `op` fields change, and only those of nodes whose operation is an opaque operation the registry defines *)
-Lemma untouchable_op_fixed reg o : untouchable_op reg o = true -> resolve_op reg o = o.
+Lemma untouchable_op_fixed reg keep o : untouchable_op reg o = true -> resolve_op reg keep o = o.
 Proof.
   destruct o as [c|x|k]; cbn; try reflexivity. intros H. unfold resolve_custom.
   destruct (lookup_op reg (c_ext c) (c_name c)) as [d|] eqn:E; [|reflexivity].
   apply lookup_op_defines in E. assert (R : resolvable_op reg (c_ext c) (c_name c)) by (now exists d).
   apply resolvable_op_b_spec in R. rewrite R in H. discriminate.
 Qed.
-Lemma fixed_untouchable_op reg o : RegWF reg -> resolve_op reg o = o -> untouchable_op reg o = true.
+Lemma fixed_untouchable_op reg keep o : RegWF reg -> resolve_op reg keep o = o -> untouchable_op reg o = true.
 Proof.
   intros Hwf. destruct o as [c|x|k]; cbn; try reflexivity. unfold resolve_custom.
   destruct (lookup_op reg (c_ext c) (c_name c)) as [d|] eqn:E; [discriminate|]. intros _.
@@ -157,27 +157,27 @@ Proof.
   apply resolvable_op_b_spec in R. contradiction.
 Qed.
 
-Lemma resolve_untouchable reg o : hop_holds (untouchable_op reg) o = true -> resolve_hop reg o = o.
+Lemma resolve_untouchable reg keep o : hop_holds (untouchable_op reg) o = true -> resolve_hop reg keep o = o.
 Proof. destruct o as [o|k a b l|v]; cbn; try reflexivity. intros H. now rewrite untouchable_op_fixed. Qed.
-Lemma resolve_fixed reg o : RegWF reg -> resolve_hop reg o = o -> hop_holds (untouchable_op reg) o = true.
+Lemma resolve_fixed reg keep o : RegWF reg -> resolve_hop reg keep o = o -> hop_holds (untouchable_op reg) o = true.
 Proof.
   intros Hwf. destruct o as [o|k a b l|v]; cbn; try reflexivity. intros H. injection H as H.
-  now apply fixed_untouchable_op.
+  now apply (fixed_untouchable_op reg keep).
 Qed.
 (* constants are never touched, whatever they hold *)
-Lemma resolve_const reg v : resolve_hop reg (HConst v) = HConst v.
+Lemma resolve_const reg keep v : resolve_hop reg keep (HConst v) = HConst v.
 Proof. reflexivity. Qed.
 
 (* node by node *)
-Lemma resolve_node_at reg h i :
-  get_node (resolve_extensions reg h) i = option_map (map_node (resolve_hop reg)) (get_node h i).
+Lemma resolve_node_at reg keep h i :
+  get_node (resolve_extensions reg keep h) i = option_map (map_node (resolve_hop reg keep)) (get_node h i).
 Proof. rewrite resolve_extensions_map. apply get_node_map. Qed.
 
 (* ------------------------------------------------------------------ (b) idempotence *)
-Lemma resolve_hop_idem reg o : resolve_hop reg (resolve_hop reg o) = resolve_hop reg o.
+Lemma resolve_hop_idem reg keep keep' o : resolve_hop reg keep' (resolve_hop reg keep o) = resolve_hop reg keep o.
 Proof. destruct o as [o|k a b l|v]; cbn; try reflexivity. now rewrite resolve_op_idem. Qed.
-Lemma resolve_extensions_idem reg h :
-  resolve_extensions reg (resolve_extensions reg h) = resolve_extensions reg h.
+Lemma resolve_extensions_idem reg keep keep' h :
+  resolve_extensions reg keep' (resolve_extensions reg keep h) = resolve_extensions reg keep h.
 Proof.
   rewrite !resolve_extensions_map, map_hugr_map_hugr. apply map_hugr_ext.
   apply Forall_forall. intros [n|] _; [|trivial]. apply resolve_hop_idem.
@@ -299,7 +299,7 @@ Proof.
   eexists. split; [reflexivity|]. repeat split; cbn; auto.
 Qed.
 
-Lemma resolve_hop_ndp reg o d : hop_ndp (resolve_hop reg o) d = hop_ndp o d.
+Lemma resolve_hop_ndp reg keep o d : hop_ndp (resolve_hop reg keep o) d = hop_ndp o d.
 Proof.
   destruct o as [[c|x|k]|k a b l|v]; cbn; try reflexivity.
   unfold resolve_custom. destruct (lookup_op reg (c_ext c) (c_name c)); cbn; [|reflexivity].
@@ -316,67 +316,102 @@ Proof.
     rewrite Ey', Eys'. eexists. split; [reflexivity|]. now constructor.
 Qed.
 
-Lemma resolve_ser_hop reg o : RegWF reg -> hop_holds (consistent_op reg) o = true ->
-  Ropt (SameSop reg) (ser_hop o) (ser_hop (resolve_hop reg o)).
+Lemma resolve_ser_hop reg keep o : RegWF reg -> hop_holds (consistent_op reg) o = true ->
+  Ropt (SameSop reg) (ser_hop o) (ser_hop (resolve_hop reg keep o)).
 Proof.
   intros Hwf Hc s Hs. destruct o as [o|k a b l|v]; cbn [resolve_hop hop_holds] in *.
   - cbn [ser_hop] in *. destruct (ser_op o) as [so|] eqn:Eo; [|discriminate]. injection Hs as <-.
-    destruct (resolve_op_ser _ _ _ Hwf Hc Eo) as [so' [Eso' Hr]]. rewrite Eso'. eexists. split; [reflexivity|].
+    destruct (resolve_op_ser _ keep _ _ Hwf Hc Eo) as [so' [Eso' Hr]]. rewrite Eso'. eexists. split; [reflexivity|].
     now constructor.
   - exists s. split; [exact Hs|]. cbn in Hs. injection Hs as <-. constructor.
   - exists s. split; [exact Hs|]. cbn [ser_hop] in Hs. destruct (ser_val v); [|discriminate].
     injection Hs as <-. constructor.
 Qed.
 
-Lemma resolve_doc reg h s : RegWF reg -> consistent_hugr reg h = true -> hugr_doc h = Some s ->
-  exists s', hugr_doc (resolve_extensions reg h) = Some s' /\ SameDoc reg s s'.
+Lemma resolve_doc reg keep h s : RegWF reg -> consistent_hugr reg h = true -> hugr_doc h = Some s ->
+  exists s', hugr_doc (resolve_extensions reg keep h) = Some s' /\ SameDoc reg s s'.
 Proof.
   intros Hwf Hc Hs. rewrite resolve_extensions_map. unfold hugr_doc in *.
   unfold consistent_hugr, hugr_all in Hc. rewrite forallb_Forall in Hc.
   assert (H : orel (serial_rel (Ropt (SameSop reg))) (to_serial ser_hop hop_ndp md_is_nil h)
-                   (to_serial ser_hop hop_ndp md_is_nil (map_hugr (resolve_hop reg) h))).
+                   (to_serial ser_hop hop_ndp md_is_nil (map_hugr (resolve_hop reg keep) h))).
   { apply to_serial_map. eapply Forall_impl; [|exact Hc]. intros [n|]; cbn; [|trivial].
     intros Hcn. split; [intros d; apply resolve_hop_ndp|]. now apply resolve_ser_hop. }
   destruct (to_serial ser_hop hop_ndp md_is_nil h) as [d|]; [|discriminate].
-  destruct (to_serial ser_hop hop_ndp md_is_nil (map_hugr (resolve_hop reg) h)) as [d'|]; cbn in H; [|contradiction].
+  destruct (to_serial ser_hop hop_ndp md_is_nil (map_hugr (resolve_hop reg keep) h)) as [d'|]; cbn in H; [|contradiction].
   destruct (seq_serial_rel _ _ _ _ H Hs) as [sd' [Ed' Hr]]. exists sd'. split; [exact Ed'|exact Hr].
 Qed.
 
+(* the description clause in the other direction: where the implementation keeps the loaded descriptions the
+   document is identical (also when serialisation raises) *)
+Lemma orel_serial_eq {S M} (x y : option (serial S M)) : orel (serial_rel eq) x y -> x = y.
+Proof.
+  destruct x as [s|], y as [s'|]; cbn; try contradiction; [|reflexivity].
+  intros (He & Hm & Hn). destruct s as [n e m], s' as [n' e' m']; cbn in *. subst. f_equal. f_equal.
+  clear -Hn. induction Hn as [|a b l l' [Hp Ho] _ IH]; [reflexivity|]. destruct a, b; cbn in *; subst. reflexivity.
+Qed.
+Lemma resolve_ser_hop_keep reg keep o : RegWF reg -> hop_holds (consistent_op reg) o = true ->
+  hop_holds (keeps_descr keep) o = true -> ser_hop (resolve_hop reg keep o) = ser_hop o.
+Proof.
+  intros Hwf Hc Hk. destruct o as [o|k a b l|v]; cbn [resolve_hop hop_holds] in *; try reflexivity.
+  cbn [ser_hop]. rewrite (resolve_op_ser_keep reg keep o Hwf Hc); [reflexivity|].
+  intros c ->. exact Hk.
+Qed.
+Lemma resolve_doc_keep reg keep h : RegWF reg -> consistent_hugr reg h = true ->
+  hugr_all (keeps_descr keep) h = true -> hugr_doc (resolve_extensions reg keep h) = hugr_doc h.
+Proof.
+  intros Hwf Hc Hk. rewrite resolve_extensions_map. unfold hugr_doc.
+  unfold consistent_hugr, hugr_all in Hc, Hk. rewrite forallb_forall in Hc, Hk.
+  assert (H : orel (serial_rel eq) (to_serial ser_hop hop_ndp md_is_nil h)
+                   (to_serial ser_hop hop_ndp md_is_nil (map_hugr (resolve_hop reg keep) h))).
+  { apply to_serial_map. apply Forall_forall. intros [n|] Hin; cbn; [|trivial].
+    split; [intros d; apply resolve_hop_ndp|]. symmetry. apply resolve_ser_hop_keep; auto.
+    - exact (Hc _ Hin).
+    - exact (Hk _ Hin). }
+  now rewrite <- (orel_serial_eq _ _ H).
+Qed.
+Lemma resolve_ser_hop_take reg keep c d s' : RegWF reg -> defines_op reg (c_ext c) (c_name c) d -> keep c = false ->
+  ser_hop (resolve_hop reg keep (HOp (OCustom c))) = Some (SOp (OCustom s')) -> c_descr s' = od_descr d.
+Proof.
+  intros Hwf Hd Hk. cbn [resolve_hop ser_hop]. destruct (ser_op _) as [so|] eqn:E; [|discriminate].
+  cbn. intros H. injection H as ->. eapply resolve_op_ser_take; eauto.
+Qed.
+
 (* ------------------------------------------------------------------ (d) port types *)
-Lemma op_out_type_resolve reg o k :
-  op_out_type (resolve_hop reg o) k = op_out_type o k \/
+Lemma op_out_type_resolve reg keep o k :
+  op_out_type (resolve_hop reg keep o) k = op_out_type o k \/
   (exists c, o = HOp (OCustom c) /\ lookup_op reg (c_ext c) (c_name c) <> None /\
-             op_out_type (resolve_hop reg o) k = option_map (resolve_ty reg) (op_out_type o k)).
+             op_out_type (resolve_hop reg keep o) k = option_map (resolve_ty reg) (op_out_type o k)).
 Proof.
   destruct o as [[c|x|j]|j a b l|v]; cbn; auto.
   unfold resolve_custom. destruct (lookup_op reg (c_ext c) (c_name c)) as [d|] eqn:E; cbn; auto.
   right. exists c. rewrite E. split; [reflexivity|]. split; [discriminate|]. apply nth_error_map.
 Qed.
-Lemma port_type_resolve reg h i k :
-  port_type (resolve_extensions reg h) i k = port_type h i k \/
+Lemma port_type_resolve reg keep h i k :
+  port_type (resolve_extensions reg keep h) i k = port_type h i k \/
   (exists n c, get_node h i = Some n /\ n_op n = HOp (OCustom c) /\ lookup_op reg (c_ext c) (c_name c) <> None /\
-               port_type (resolve_extensions reg h) i k = option_map (resolve_ty reg) (port_type h i k)).
+               port_type (resolve_extensions reg keep h) i k = option_map (resolve_ty reg) (port_type h i k)).
 Proof.
   unfold port_type. rewrite resolve_node_at. destruct (get_node h i) as [n|]; cbn; auto.
-  destruct (op_out_type_resolve reg (n_op n) k) as [E|(c & Ec & Hl & E)]; auto. right. exists n, c. auto.
+  destruct (op_out_type_resolve reg keep (n_op n) k) as [E|(c & Ec & Hl & E)]; auto. right. exists n, c. auto.
 Qed.
-Lemma port_type_related reg h i k : RegWF reg ->
-  port_type_rel reg (port_type h i k) (port_type (resolve_extensions reg h) i k).
+Lemma port_type_related reg keep h i k : RegWF reg ->
+  port_type_rel reg (port_type h i k) (port_type (resolve_extensions reg keep h) i k).
 Proof.
-  intros Hwf. destruct (port_type_resolve reg h i k) as [E|(n & c & _ & _ & _ & E)]; [now left|].
+  intros Hwf. destruct (port_type_resolve reg keep h i k) as [E|(n & c & _ & _ & _ & E)]; [now left|].
   destruct (port_type h i k) as [t|]; cbn in E; [|now left]. right. exists t, (resolve_ty reg t).
   repeat split; auto. now apply resolve_pointwise.
 Qed.
-Lemma port_type_untouched reg h i n k : get_node h i = Some n -> hop_holds (untouchable_op reg) (n_op n) = true ->
-  port_type (resolve_extensions reg h) i k = port_type h i k.
+Lemma port_type_untouched reg keep h i n k : get_node h i = Some n -> hop_holds (untouchable_op reg) (n_op n) = true ->
+  port_type (resolve_extensions reg keep h) i k = port_type h i k.
 Proof.
   intros E H. unfold port_type. rewrite resolve_node_at, E. cbn.
-  now rewrite (resolve_untouchable reg _ H).
+  now rewrite (resolve_untouchable reg keep _ H).
 Qed.
-Lemma port_type_consistent reg h i k t : consistent_hugr reg h = true -> port_type h i k = Some t ->
-  port_type (resolve_extensions reg h) i k = Some t \/ consistent reg t = true.
+Lemma port_type_consistent reg keep h i k t : consistent_hugr reg h = true -> port_type h i k = Some t ->
+  port_type (resolve_extensions reg keep h) i k = Some t \/ consistent reg t = true.
 Proof.
-  intros Hc Ht. destruct (port_type_resolve reg h i k) as [E|(n & c & En & Ec & _ & _)]; [left; congruence|]. right.
+  intros Hc Ht. destruct (port_type_resolve reg keep h i k) as [E|(n & c & En & Ec & _ & _)]; [left; congruence|]. right.
   unfold consistent_hugr, hugr_all in Hc. rewrite forallb_forall in Hc.
   assert (Hin : In (Some n) (h_nodes h)).
   { unfold get_node in En. destruct (nth_error (h_nodes h) i) as [[m|]|] eqn:E; try discriminate.
@@ -385,15 +420,15 @@ Proof.
   unfold consistent_ft in Hf. apply andb_true_iff in Hf as [_ Ho]. rewrite forallb_forall in Ho. apply Ho.
   unfold port_type in Ht. rewrite En, Ec in Ht. cbn in Ht. eapply nth_error_In; eauto.
 Qed.
-Lemma port_type_facts reg h i k : RegWF reg -> consistent_hugr reg h = true ->
-  option_map tbound (port_type (resolve_extensions reg h) i k) = option_map tbound (port_type h i k) /\
-  option_map ser_ty (port_type (resolve_extensions reg h) i k) = option_map ser_ty (port_type h i k).
+Lemma port_type_facts reg keep h i k : RegWF reg -> consistent_hugr reg h = true ->
+  option_map tbound (port_type (resolve_extensions reg keep h) i k) = option_map tbound (port_type h i k) /\
+  option_map ser_ty (port_type (resolve_extensions reg keep h) i k) = option_map ser_ty (port_type h i k).
 Proof.
   intros Hwf Hc. destruct (port_type h i k) as [t|] eqn:Et.
-  - destruct (port_type_consistent _ _ _ _ _ Hc Et) as [E|Ht]; [rewrite E; auto|].
-    destruct (port_type_resolve reg h i k) as [E|(n & c & _ & _ & _ & E)]; rewrite E, ?Et; auto. cbn.
+  - destruct (port_type_consistent _ keep _ _ _ _ Hc Et) as [E|Ht]; [rewrite E; auto|].
+    destruct (port_type_resolve reg keep h i k) as [E|(n & c & _ & _ & _ & E)]; rewrite E, ?Et; auto. cbn.
     now rewrite (resolve_bound _ _ Ht), (resolve_ser _ _ Hwf Ht).
-  - destruct (port_type_resolve reg h i k) as [E|(n & c & _ & _ & _ & E)]; rewrite E, ?Et; auto.
+  - destruct (port_type_resolve reg keep h i k) as [E|(n & c & _ & _ & _ & E)]; rewrite E, ?Et; auto.
 Qed.
 
 (* ------------------------------------------------------------------ the computing relations are sound *)
@@ -638,77 +673,89 @@ End ExH.
 Example exh_nontrivial :
   RegWF Ex.reg /\ consistent_hugr Ex.reg ExH.h = true /\ hugr_all (untouchable_op Ex.reg) ExH.h = false /\
   get_node ExH.h 1 = None /\
-  hugr_eqb (resolve_extensions Ex.reg ExH.h) ExH.h = false /\ rhugr_b Ex.reg ExH.h (resolve_extensions Ex.reg ExH.h) = true /\
-  (exists s s', hugr_doc ExH.h = Some s /\ hugr_doc (resolve_extensions Ex.reg ExH.h) = Some s' /\
+  hugr_eqb (resolve_extensions Ex.reg take_definitions ExH.h) ExH.h = false /\ rhugr_b Ex.reg ExH.h (resolve_extensions Ex.reg take_definitions ExH.h) = true /\
+  (exists s s', hugr_doc ExH.h = Some s /\ hugr_doc (resolve_extensions Ex.reg take_definitions ExH.h) = Some s' /\
                 doc_eqb s s' = false /\ same_doc_b Ex.reg s s' = true) /\
-  (exists t, port_type ExH.h 2 0 = Some t /\ port_type (resolve_extensions Ex.reg ExH.h) 2 0 = Some (resolve_ty Ex.reg t) /\
+  (exists t, port_type ExH.h 2 0 = Some t /\ port_type (resolve_extensions Ex.reg take_definitions ExH.h) 2 0 = Some (resolve_ty Ex.reg t) /\
              ty_eqb (resolve_ty Ex.reg t) t = false) /\
   port_type ExH.h 2 1 = None /\
-  get_node (resolve_extensions Ex.reg ExH.h) 3 = get_node ExH.h 3 /\ hugr_all (untouchable_op Ex.reg) ExH.body = false.
+  get_node (resolve_extensions Ex.reg take_definitions ExH.h) 3 = get_node ExH.h 3 /\ hugr_all (untouchable_op Ex.reg) ExH.body = false /\
+  (* an implementation that keeps the loaded description: the operation is resolved all the same, the document is identical *)
+  hugr_eqb (resolve_extensions Ex.reg keep_loaded ExH.h) ExH.h = false /\
+  rhugr_b Ex.reg ExH.h (resolve_extensions Ex.reg keep_loaded ExH.h) = true /\
+  hugr_doc (resolve_extensions Ex.reg keep_loaded ExH.h) = hugr_doc ExH.h /\ hugr_doc ExH.h <> None.
 Proof.
   split; [exact ex_regwf|]. repeat split; try (vm_compute; reflexivity).
   - do 2 eexists. repeat split; vm_compute; reflexivity.
   - eexists. repeat split; vm_compute; reflexivity.
+  - vm_compute. discriminate.
 Qed.
 
 (* ------------------------------------------------------------------ property-level statements *)
-Lemma hugr_loop_is_map_thm : forall reg h,
-  resolve_extensions reg h = map_hugr (resolve_hop reg) h /\
-  (forall i, get_node (resolve_extensions reg h) i = option_map (map_node (resolve_hop reg)) (get_node h i)).
-Proof. intros reg h. split; [apply resolve_extensions_map|intros i; apply resolve_node_at]. Qed.
+Lemma hugr_loop_is_map_thm : forall reg keep h,
+  resolve_extensions reg keep h = map_hugr (resolve_hop reg keep) h /\
+  (forall i, get_node (resolve_extensions reg keep h) i = option_map (map_node (resolve_hop reg keep)) (get_node h i)).
+Proof. intros reg keep h. split; [apply resolve_extensions_map|intros i; apply resolve_node_at]. Qed.
 
-Lemma hugr_frame_thm : forall reg h,
-  same_frame h (resolve_extensions reg h) /\ live (resolve_extensions reg h) = live h /\
-  length (h_nodes (resolve_extensions reg h)) = length (h_nodes h).
+Lemma hugr_frame_thm : forall reg keep h,
+  same_frame h (resolve_extensions reg keep h) /\ live (resolve_extensions reg keep h) = live h /\
+  length (h_nodes (resolve_extensions reg keep h)) = length (h_nodes h).
 Proof.
-  intros reg h. split; [apply resolve_frame|]. rewrite resolve_extensions_map. split; [apply live_map|].
+  intros reg keep h. split; [apply resolve_frame|]. rewrite resolve_extensions_map. split; [apply live_map|].
   cbn. apply map_length.
 Qed.
 
-Lemma hugr_resolve_pointwise_thm : forall reg, RegWF reg ->
-  (forall h, RHugr reg h (resolve_extensions reg h)) /\ (forall o, RHop reg o (resolve_hop reg o)).
+Lemma hugr_resolve_pointwise_thm : forall reg keep, RegWF reg ->
+  (forall h, RHugr reg h (resolve_extensions reg keep h)) /\ (forall o, RHop reg o (resolve_hop reg keep o)).
 Proof.
-  intros reg Hwf. split; [intros h; now apply resolve_hugr_rel|intros o; now apply resolve_hop_rel].
+  intros reg keep Hwf. split; [intros h; now apply resolve_hugr_rel|intros o; now apply resolve_hop_rel].
 Qed.
 
-Lemma hugr_only_defined_ops_change_thm : forall reg,
-  (forall o, hop_holds (untouchable_op reg) o = true -> resolve_hop reg o = o) /\
-  (RegWF reg -> forall o, resolve_hop reg o = o -> hop_holds (untouchable_op reg) o = true) /\
-  (forall h, hugr_all (untouchable_op reg) h = true -> resolve_extensions reg h = h) /\
+Lemma hugr_only_defined_ops_change_thm : forall reg keep,
+  (forall o, hop_holds (untouchable_op reg) o = true -> resolve_hop reg keep o = o) /\
+  (RegWF reg -> forall o, resolve_hop reg keep o = o -> hop_holds (untouchable_op reg) o = true) /\
+  (forall h, hugr_all (untouchable_op reg) h = true -> resolve_extensions reg keep h = h) /\
   (forall h i n, get_node h i = Some n -> hop_holds (untouchable_op reg) (n_op n) = true ->
-                 get_node (resolve_extensions reg h) i = Some n).
+                 get_node (resolve_extensions reg keep h) i = Some n).
 Proof.
-  intros reg. split; [apply resolve_untouchable|]. split; [intros Hwf o; now apply resolve_fixed|]. split.
+  intros reg keep. split; [apply resolve_untouchable|]. split; [intros Hwf o; now apply resolve_fixed|]. split.
   - intros h H. rewrite resolve_extensions_map. apply map_hugr_id. unfold hugr_all in H. rewrite forallb_Forall in H.
     eapply Forall_impl; [|exact H]. intros [n|]; cbn; [|trivial]. apply resolve_untouchable.
   - intros h i n E H. rewrite resolve_node_at, E. cbn. f_equal. apply map_node_id. now apply resolve_untouchable.
 Qed.
 
 (* constants belong to the frame *)
-Lemma hugr_constants_untouched_thm : forall reg,
-  (forall v, resolve_hop reg (HConst v) = HConst v) /\
-  (forall h i n v, get_node h i = Some n -> n_op n = HConst v -> get_node (resolve_extensions reg h) i = Some n) /\
+Lemma hugr_constants_untouched_thm : forall reg keep,
+  (forall v, resolve_hop reg keep (HConst v) = HConst v) /\
+  (forall h i n v, get_node h i = Some n -> n_op n = HConst v -> get_node (resolve_extensions reg keep h) i = Some n) /\
   (forall v o, rhop_b reg (HConst v) o = true -> o = HConst v) /\
   (forall v o, RHop reg (HConst v) o -> o = HConst v).
 Proof.
-  intros reg. split; [reflexivity|]. split.
+  intros reg keep. split; [reflexivity|]. split.
   - intros h i n v E Ho. rewrite resolve_node_at, E. cbn. f_equal. apply map_node_id. now rewrite Ho.
   - split; [apply rhop_b_const|]. intros v o H. inversion H. reflexivity.
 Qed.
 
-Lemma hugr_idempotent_thm : forall reg,
-  (forall h, resolve_extensions reg (resolve_extensions reg h) = resolve_extensions reg h) /\
-  (forall o, resolve_hop reg (resolve_hop reg o) = resolve_hop reg o).
-Proof. intros reg. split; [apply resolve_extensions_idem|apply resolve_hop_idem]. Qed.
+Lemma hugr_idempotent_thm : forall reg keep keep',
+  (forall h, resolve_extensions reg keep' (resolve_extensions reg keep h) = resolve_extensions reg keep h) /\
+  (forall o, resolve_hop reg keep' (resolve_hop reg keep o) = resolve_hop reg keep o).
+Proof. intros reg keep keep'. split; [apply resolve_extensions_idem|apply resolve_hop_idem]. Qed.
 
-Lemma hugr_document_thm : forall reg, RegWF reg ->
+Lemma hugr_document_thm : forall reg keep, RegWF reg ->
   (forall h s, consistent_hugr reg h = true -> hugr_doc h = Some s ->
-     exists s', hugr_doc (resolve_extensions reg h) = Some s' /\ SameDoc reg s s') /\
+     exists s', hugr_doc (resolve_extensions reg keep h) = Some s' /\ SameDoc reg s s') /\
   (forall b, ser_val (VFunc b) = match to_serial ser_hop hop_ndp md_is_nil b with
                                  | Some d => option_map SVFunc (seq_serial d)
                                  | None => None
-                                 end).
-Proof. intros reg Hwf. split; [intros h s; now apply resolve_doc|apply ser_val_func_eq]. Qed.
+                                 end) /\
+  (forall h, consistent_hugr reg h = true -> hugr_all (keeps_descr keep) h = true ->
+     hugr_doc (resolve_extensions reg keep h) = hugr_doc h) /\
+  (forall c d s', defines_op reg (c_ext c) (c_name c) d -> keep c = false ->
+     ser_hop (resolve_hop reg keep (HOp (OCustom c))) = Some (SOp (OCustom s')) -> c_descr s' = od_descr d).
+Proof.
+  intros reg keep Hwf. split; [intros h s; now apply resolve_doc|]. split; [apply ser_val_func_eq|].
+  split; [intros h; now apply resolve_doc_keep|]. intros c d s'. now apply resolve_ser_hop_take.
+Qed.
 
 Lemma document_frame_through_enc_thm :
   forall (A S M : Type) (enc : A -> S) (ndp : A -> dir -> option nat) (nil : M -> bool) (f : A -> A)
@@ -729,19 +776,19 @@ Proof.
   destruct (to_serial enc ndp nil h), (to_serial enc ndp nil (map_hugr f h)); exact E.
 Qed.
 
-Lemma hugr_port_types_thm : forall reg h i k,
-  (port_type (resolve_extensions reg h) i k = port_type h i k \/
+Lemma hugr_port_types_thm : forall reg keep h i k,
+  (port_type (resolve_extensions reg keep h) i k = port_type h i k \/
    exists n c, get_node h i = Some n /\ n_op n = HOp (OCustom c) /\ lookup_op reg (c_ext c) (c_name c) <> None /\
-               port_type (resolve_extensions reg h) i k = option_map (resolve_ty reg) (port_type h i k)) /\
-  (RegWF reg -> port_type_rel reg (port_type h i k) (port_type (resolve_extensions reg h) i k)) /\
+               port_type (resolve_extensions reg keep h) i k = option_map (resolve_ty reg) (port_type h i k)) /\
+  (RegWF reg -> port_type_rel reg (port_type h i k) (port_type (resolve_extensions reg keep h) i k)) /\
   (forall n, get_node h i = Some n -> hop_holds (untouchable_op reg) (n_op n) = true ->
-             port_type (resolve_extensions reg h) i k = port_type h i k) /\
+             port_type (resolve_extensions reg keep h) i k = port_type h i k) /\
   (RegWF reg -> consistent_hugr reg h = true ->
-     option_map tbound (port_type (resolve_extensions reg h) i k) = option_map tbound (port_type h i k) /\
-     option_map ser_ty (port_type (resolve_extensions reg h) i k) = option_map ser_ty (port_type h i k)) /\
-  (forall d n, get_node h i = Some n -> hop_ndp (resolve_hop reg (n_op n)) d = hop_ndp (n_op n) d).
+     option_map tbound (port_type (resolve_extensions reg keep h) i k) = option_map tbound (port_type h i k) /\
+     option_map ser_ty (port_type (resolve_extensions reg keep h) i k) = option_map ser_ty (port_type h i k)) /\
+  (forall d n, get_node h i = Some n -> hop_ndp (resolve_hop reg keep (n_op n)) d = hop_ndp (n_op n) d).
 Proof.
-  intros reg h i k. split; [apply port_type_resolve|]. split; [intros; now apply port_type_related|].
+  intros reg keep h i k. split; [apply port_type_resolve|]. split; [intros; now apply port_type_related|].
   split; [intros n; apply port_type_untouched|]. split; [intros; now apply port_type_facts|].
   intros d n _. apply resolve_hop_ndp.
 Qed.
@@ -758,7 +805,7 @@ Proof.
 Qed.
 
 (* ------------------------------------------------------------------ every depth, at HUGR level *)
-Lemma resolve_op_deep reg o : RegWF reg -> op_loaded o = true -> op_clean reg (resolve_op reg o) = true.
+Lemma resolve_op_deep reg keep o : RegWF reg -> op_loaded o = true -> op_clean reg (resolve_op reg keep o) = true.
 Proof.
   intros Hwf. destruct o as [c|x|k]; cbn [resolve_op op_loaded]; try discriminate; [|reflexivity].
   rewrite !andb_true_iff. intros [[Hi Ho] Ha]. unfold resolve_custom.
@@ -769,11 +816,11 @@ Proof.
   - apply resolve_deep; auto. rewrite forallb_forall in Ho. auto.
   - apply resolve_arg_deep; auto. rewrite forallb_forall in Ha. auto.
 Qed.
-Lemma hugr_reaches_every_depth_thm : forall reg, RegWF reg ->
-  (forall h, hugr_all op_loaded h = true -> hugr_all (op_clean reg) (resolve_extensions reg h) = true) /\
-  (forall o, op_loaded o = true -> op_clean reg (resolve_op reg o) = true).
+Lemma hugr_reaches_every_depth_thm : forall reg keep, RegWF reg ->
+  (forall h, hugr_all op_loaded h = true -> hugr_all (op_clean reg) (resolve_extensions reg keep h) = true) /\
+  (forall o, op_loaded o = true -> op_clean reg (resolve_op reg keep o) = true).
 Proof.
-  intros reg Hwf. split; [|intros o; now apply resolve_op_deep].
+  intros reg keep Hwf. split; [|intros o; now apply resolve_op_deep].
   intros h H. rewrite resolve_extensions_map. unfold hugr_all in *. cbn [map_hugr h_nodes]. rewrite forallb_map.
   rewrite forallb_Forall in *. eapply Forall_impl; [|exact H]. intros [n|]; cbn; [|trivial].
   destruct (n_op n) as [o|k a b l|v]; cbn; auto. now apply resolve_op_deep.
